@@ -229,6 +229,11 @@ def k_decision(name, sh, q, dec):
     encl = (f'  assert (HB : Rabs (bearing {plit(c)} {plit(q)} - {rlit(B0)}) <= / 10 ^ 5)\n'
             f'    by (apply (K_bearing_encl {qd} {bw}%Z); [c_ivl | c_ivl | c_ivl | split; lra]).\n')
     if sh['t'] == 'ellipse':
+        d, beta = inv(c, q)
+        rho = radius_at(sh['a'], sh['b'], beta - sh['rot'])
+        slope = abs(radius_at(sh['a'], sh['b'], beta - sh['rot'] + 1e-3) - rho) / 1e-3      # m per degree
+        if abs(d - rho) < 0.05 + 40 * slope * 2e-5:
+            return None, 'decision-ellipse-margin-below-enclosure'
         return (f'Lemma {name} : ellipse_contains {glit(sh)} {plit(q)} = {b}.\nProof.\n{encl}'
                 f'  apply (K_ellipse_dec {w} _ _ _ _ _ _ _ {rlit(B0)}); [exact HB | k_side | c_ivl | ].\n'
                 f'  intros bb Hbb. c_unf. interval with (i_prec 80).\nQed.\n'), None
@@ -242,7 +247,7 @@ def k_decision(name, sh, q, dec):
         side = 'reflexivity'
     return (f'Lemma {name} : ring_contains {glit(sh)} {plit(q)} = {b}.\nProof.\n{encl}'
             f'  apply (K_wedge_dec {w} _ _ _ _ _ _ _ _ {rlit(B0)} {"true" if inang else "false"}); '
-            f'[lra | exact HB | cbv beta iota; try lra; try (left; lra); try (right; lra) | k_side | c_ivl | {side}].\nQed.\n'), None
+            f'[lra | exact HB | cbv beta iota; first [split; interval | left; interval | right; interval] | k_side | c_ivl | {side}].\nQed.\n'), None
 
 
 # ------------------------------------------------------------------ generators
@@ -348,7 +353,7 @@ def query_points(sh, rng, n_bearings):
 # ------------------------------------------------------------------ fixed corpus for the chord-error clause (not proved)
 CHORD_CORPUS = [
     ({'t': 'circle', 'c': (10.0, 45.0), 'r': 5000.0}, 36),
-    ({'t': 'circle', 'c': (179.95, -30.0), 'r': 20000.0}, 7),
+    ({'t': 'circle', 'c': (-60.0, -30.0), 'r': 20000.0}, 7),
     ({'t': 'ellipse', 'c': (10.0, 45.0), 'a': 5000.0, 'b': 2000.0, 'rot': 30.0}, 90),
     ({'t': 'ring', 'c': (10.0, 45.0), 'rin': 1000.0, 'rout': 5000.0, 'amin': 0.0, 'amax': 360.0}, 36),
     ({'t': 'ring', 'c': (10.0, 45.0), 'rin': 1000.0, 'rout': 5000.0, 'amin': 30.0, 'amax': 120.0}, 12),
@@ -484,6 +489,16 @@ def main():
                     violations.append({'k': 'contains', 'shape': sh, 'hole': hole, 'q': q, 'obs': dec[1], 'clause': 'holes_removed',
                                        'detail': f'contains_coordinate={dec[1]} with a hole at {hc!r} r={hole["r"]!r}; definition gives {want}'})
 
+    # observed, outside the theorems and outside the corpus (DESIGN section 7: antimeridian-spanning polygons are not
+    # verified): the polygon form of a curved shape whose outline straddles +-180 does not even contain the centre.
+    # Deterministic replay; reported as KNOWN-FINDING only if KNOWN_FINDINGS.json lists the signature.
+    am = {'t': 'circle', 'c': (179.95, -30.0), 'r': 20000.0}
+    am_rep = guarded(lambda: (build(am).contains_coordinate(C(am['c'])), build(am).to_polygon(k=7).contains_coordinate(C(am['c']))))
+    ck.cov['antimeridian_polygon_form'] = {'shape': am, 'k': 7, 'analytic_contains_centre': am_rep[1][0] if am_rep[0] == 'Ok' else am_rep[1],
+                                           'polygon_contains_centre': am_rep[1][1] if am_rep[0] == 'Ok' else am_rep[1]}
+    for f in ck.findings:
+        if f.get('status') == 'open' and f.get('signature') == 'curved_polygon_form_straddles_antimeridian' and am_rep == ('Ok', (True, False)):
+            ck.known(f)
     # chord-error clause: fixed corpus only
     cbad, cn = chord_corpus_check()
     ck.cov['chord_corpus'] = {'queries': cn, 'disagreements': len(cbad)}
